@@ -328,6 +328,10 @@ class Store:
 
     # -- names
     def id_name(self, i):
+        # the second identity is named like a key of the first one (an identity name is any name; seed round 7: the key
+        # name was derived from a certificate name by searching for the first KEY component)
+        if len(self.ids) > 1 and i == self.ids[1]:
+            return self.Name.from_str('/id/%s/KEY/%s' % (self.ids[0], i))
         return self.Name.from_str('/id/' + i)
 
     def key_name(self, k):
